@@ -7,4 +7,12 @@ def run(ctx):
     def extra(ctx):
         rnd = random.Random(ctx.seed * 17 + 1)
         return [ec.gen_cycle_history(rnd, 'C17_cyc_%d' % i) for i in range(2500 if ctx.quick() else 20000)]
-    engcommon.run_engine_property(ctx, 'C17', scan_accept=700, oracles=[('cycle', ec.oracle_c17)], faults=0.0, n=300, extra_hists=extra, feat=dict(dyndep=0.2))
+    known = {k.get('id') for k in ctx.known_list if k.get('property') == 'C17'}
+    def orc(h, st, b, prev=None):
+        bad = ec.oracle_c17(h, st, b)
+        if bad and isinstance(bad[0], tuple):
+            if bad[0][0] == 'KNOWN:dyndep-output-cycle-not-named' and 'dyndep-output-cycle-not-named' in known:
+                ctx.known_finding('id=dyndep-output-cycle-not-named ' + bad[0][1][:260]); return None
+            return [bad[0][1]]
+        return bad
+    engcommon.run_engine_property(ctx, 'C17', scan_accept=700, oracles=[('cycle', orc)], faults=0.0, n=300, extra_hists=extra, feat=dict(dyndep=0.2))
